@@ -316,6 +316,18 @@ func (g *gen) mutDictField(v reflect.Value, f Field, nav []NavStep, depth int, s
 	} else if cfg.AllowCloneUnlinked && g.st.MaybeFrozen(nav, n) {
 		x = 0
 	}
+	if cfg.GenSafe && g.main && len(nav) > 0 && hasCompositeField(f.Type) {
+		// The field may hold the frozen shared empty value installed by reset() (array elements,
+		// oneof alternatives, optional structs): Set<F>(unfrozen v) would clone it without parent
+		// links and the marks of v's nested arrays/oneofs/multimaps would be lost
+		// (setter-clone-unlinked). Only frozen values are assigned there.
+		if !canFreeze || cfg.NoFrozen {
+			return
+		}
+		if x < 7 || x >= 15 {
+			x = 7
+		}
+	}
 	switch {
 	case x < 7 || !canFreeze:
 		arg, kind = g.newObject(f.Type, pt, false, depth, stack), "fresh"
@@ -345,6 +357,18 @@ func (g *gen) mutDictField(v reflect.Value, f Field, nav []NavStep, depth int, s
 		g.do(nav, &Call{M: "Set" + n, Args: []any{spec}, Tag: 'S', Ty: f.Type, Get: n})
 		g.stat("dict-set-second")
 	}
+}
+
+func hasCompositeField(t *Type) bool {
+	if t == nil || t.Def == nil {
+		return false
+	}
+	for _, f := range t.Def.Fields {
+		if !f.Type.Kind.Primitive() {
+			return true
+		}
+	}
+	return false
 }
 
 const maxDepth = 11
@@ -536,6 +560,31 @@ func (g *gen) mutArray(v reflect.Value, t *Type, nav []NavStep, depth int, stack
 		return
 	}
 	deep := depth >= maxDepth || (et.Def != nil && stack[et.Def] >= maxRecur)
+	if et.Kind == KStruct && et.Def.Dict != "" {
+		// array of dictionary structs: EnsureLen fills new slots with the frozen shared empty
+		// value, elements are set by Append(v) only and are never modified in place through
+		// At(i) (the API panics: "attempt to modify a frozen struct").
+		if has(v, "Append") && g.r.Chance(1, 2) {
+			pt := v.MethodByName("Append").Type().In(0)
+			// frozen elements only in the main record: inside a value under construction a frozen
+			// element below an unfrozen owner is replaced without marks when the owner is later
+			// overwritten by an unfrozen value (known defect copyfrom-over-shared)
+			frozen := g.main && !g.st.Cfg.NoFrozen && has(reflect.New(pt.Elem()), "Freeze") && g.r.Bool()
+			spec := g.newObject(et, pt, frozen, depth, stack)
+			if g.do(nav, &Call{M: "Append", Args: []any{spec}, Tag: 'L', Ty: t}) {
+				g.lenStat(n, n+1)
+				g.stat("append-dict-struct")
+			}
+		} else if n > 0 && g.r.Chance(1, 2) {
+			// shrink only: EnsureLen growth after Append re-initialises the appended slots
+			// (Append does not advance initedCount: known defect append-then-ensurelen-reinit)
+			nl := g.r.Intn(n)
+			if g.do(nav, &Call{M: "EnsureLen", Args: []any{nl}, Tag: 'L', Ty: t}) {
+				g.lenStat(n, nl)
+			}
+		}
+		return
+	}
 	if g.r.Chance(1, 2) {
 		nl := g.walkLen(n, depth)
 		if deep && nl > 2 {
